@@ -20,6 +20,7 @@ EXPLANATION = (
   " (LINT-i) as in C04;"
   ' (DEF-local) no local of the SRT reader is read unassigned; (FIN-timeexpr) the cue time arithmetic equals h*3600 + m*60 + s + ms/1000 on a grid; (NUL-parent) parent walks stop at the paragraph;'
   ' (ORD-br / PAIR-span) a line break is appended to the open element before text continues, and every opened span is closed by its end tag;'
+  ' (NUL-htmlattr) in subclasses of HTMLParser the value of an attribute, which is None for an attribute written without a value, is tested against None before it is passed on or dereferenced;'
 )
 RULE_TEXT = "EXA/DEF/NUL: per call site / function; FMT: per sample timing line; TAB-tags: per writer tag literal"
 UNDECIDED = ["tag scoping for nested/adjacent tags", "line splitting and blank-line handling", "counter tolerance"]
@@ -156,4 +157,6 @@ def run(ctx):
   from ..selfcheck import falsy_default_fixture_matches
   ctx.check(falsy_default_fixture_matches(), "LINT-i", "fixture|a number defaulted with `or` is detected", "ttverif/fixtures/falsy_default.py", "the rule still matches its positive fixture", "LINT-i no longer matches its positive fixture (rule broken)")
   common.check_item_handlers(ctx, ["ttconv.srt.reader", "ttconv.utils"])
+  nha = nul.check_html_attr_values(ctx, [ctx.ix.cls("ttconv.srt.reader:_TextParser")])
+  ctx.floor("NUL-htmlattr", "uses of HTML attribute values", nha, 1)
   common.check_history_independence(ctx, ["ttconv.srt.reader", "ttconv.utils"])
